@@ -22,7 +22,10 @@ vars == <<l, tms, lasts, allowed, pend>>
 EmptyObsTm == [v9 |-> [data |-> <<>>, opts |-> <<>>], ipfix |-> [data |-> <<>>, opts |-> <<>>]]
 TmFor(caches, p) == caches[CHOOSE i \in 1..Len(caches) : caches[i].p = p].tmpl
 
-Emit(F) == \A f \in F : PrintT(<<"FINDING", l, f[1], f[2], f[3], f[4]>>)
+\* one line per finding / coverage record (strings are printed on one line, tuples are wrapped)
+Bool(x) == IF x THEN "T" ELSE "F"
+JoinSet(S) == FoldLeft(LAMBDA a, x : IF a = "" THEN x ELSE a \o "," \o x, "", SetToSeq(S))
+Emit(F) == \A f \in F : PrintT("FINDING~~" \o ToString(l) \o "~~" \o f[1] \o "~~" \o f[2] \o "~~" \o f[3] \o "~~" \o f[4])
 
 IsEvent(e) == l <= Len(Rec) /\ Rec[l].e = e /\ l' = l + 1 /\ TLCSet(1, l)
 
@@ -60,7 +63,9 @@ EvRet == /\ IsEvent("ret")
                 post == TmFor(ev.caches, p)
                 j  == Judge(pend[1].buf, allowed[p], tms[p], lasts[p], ev.out, post)
             IN /\ Emit(j.findings \cup Isolation(ev, p))
-               /\ PrintT(<<"COV", l, j.matched, j.conf, j.dev, Len(ev.out)>>)
+               /\ PrintT("COV~~" \o ToString(l) \o "~~" \o Bool(j.matched) \o "~~" \o Bool(j.conf) \o "~~"
+                         \o JoinSet(j.dev) \o "~~" \o ToString(Len(ev.out)))
+               /\ (("DEBUG" \in DOMAIN IOEnv /\ ~j.matched) => PrintT(<<"DEBUG-IDEAL", l, j.run.out, j.run.stop, "ALLDEVS", RunCall(pend[1].buf, ObsTm(tms[p], lasts[p]), allowed[p], AllDevs).out>>))
                /\ tms' = [tms EXCEPT ![p] = post]
                /\ lasts' = [lasts EXCEPT ![p] = j.last]
          /\ pend' = <<>>
